@@ -83,16 +83,19 @@ CLAIMED = {
         "transported by the C18 equivalence), literal round trips for %d/%lldL/0x%X/0x%llXL over the whole range, the "
         "string escape/unescape induction for every byte string, an adjacency invariant over the tree giving the "
         "token stream of the whole text (C01_written_text_tokens), and an induction over the tree through "
-        "p_value/p_agg/p_elems/p_settings with the fuel p_config provides (ParseWrite.v). PARTIAL in one clause: "
-        "'writing the re-read configuration reproduces the same text' is not proved (it needs render-read-render "
-        "stability of every float, false for the class F1c); it is decided on every run. Tie and second clause: rtrip "
+        "p_value/p_agg/p_elems/p_settings with the fuel p_config provides (ParseWrite.v). C01_second_write: writing "
+        "the re-read configuration (same four output attributes) reproduces the text, given that every float is stable "
+        "under render-read-render - a per-value hypothesis that is false for the class F1c and is evaluated, not proved; "
+        "C01_roundtrip states both clauses. C01_hypotheses_satisfiable exhibits a configuration meeting every "
+        "hypothesis; C01_refuted_keyword / _g_overflow / _g_denormal / _float_cut evaluate the four excluded classes "
+        "on the model. Tie: rtrip "
         "= write, read_string into a second configuration, dump, write again, over API-built and parsed trees x option "
         "vectors, compared with the model line by line and, model-free, with the property's equivalence, an "
         "independent printf rendering and the reference parser.",
    note="Known findings F1 (float %f rendering cut at 60 characters), F1b (%g rounds above DBL_MAX), F1c (denormals "
         "unstable under %g), F2 (keyword-named members), F3 (nesting beyond the parser stack) are reported as "
         "KNOWN-FINDING; a case is attributed to them only when every message of that case falls into a recorded class.",
-   technique="Coq proof (class certificates by vm_compute with a soundness proof; inductions over strings and over the tree through scanner and parser) + round-trip correspondence (second write partial)",
+   technique="Coq proof (class certificates by vm_compute with a soundness proof; inductions over strings and over the tree through scanner and parser) + round-trip correspondence (float stability is a hypothesis, evaluated)",
    ref="5 (C01)"),
  "C17": dict(
    text="Coq theorems (Properties_C17.v, closed under the global context) over Cpp.v, the model of lib/libconfigcpp.c++ "
